@@ -68,7 +68,7 @@ def gen(cs, rnd, n):
         na, nb = rnd.choice([0, 1, 2, 3, 5, 10, 20]), rnd.choice([0, 1, 2, 3, 5, 10, 20])
         rows = PL.rand_rows(rnd, na + nb, items=0.5, few_keys=True, scalars=0.15)
         A, B = rows[:na], rows[na:]
-        mode = rnd.random()
+        mode = rnd.random() if i % 50 != 7 else 2.0
         if mode < 0.25 and A:
             B = list(A)
             rnd.shuffle(B)                   # a permutation of A
@@ -79,6 +79,12 @@ def gen(cs, rnd, n):
             # (at the seam too: whatever a stage remembers of the last row of A may not colour the first row of B)
             A = [x for r in A for x in ((r, respelled(rnd, r)) if rnd.random() < 0.5 else (r,))]
             B = [respelled(rnd, A[-1])] + [respelled(rnd, r) for r in B]
+        elif mode == 2.0:
+            # a long first part (whatever a stage or the reader accumulates per row - depth, counts, caches - may not reach the second part):
+            # many empty and shallow containers, then rows that nest
+            A = [rnd.choice([("arr", []), ("obj", []), ("obj", [(PL.cps("items"), ("arr", [])), (PL.cps("g"), ("obj", [])), (PL.cps("k1"), ("arr", [("arr", [])]))]),
+                             ("arr", [("obj", []), ("arr", []), ("obj", [])]), ("num", "1"), ("str", [])]) for _ in range(rnd.choice([140, 180]))]
+            B = B + [PL.parse_ast('{"id": 100, "k1": [[1, 2], [3]], "items": [{"n": 1, "k1": {"a": {"b": [1]}}}]}'), PL.parse_ast('[[["x"]]]')]
         da, db = PL.input_bytes(A), PL.input_bytes(B)
         cs.add({"kind": "rel", "rel": "concat", "cfg": PL.mkcfg(), "input": [], "json": js and True,
                 "runs": [{"argv": argv, "stdin": hexs(da + db)}, {"argv": argv, "stdin": hexs(da)}, {"argv": argv, "stdin": hexs(db)},
